@@ -121,6 +121,27 @@ def perSymbolVisCases (tagp : String) : Array Case := Id.run do
     k := k + 1
   pure out
 
+/-- every component/property pair that supports private (suffix-linked) properties, including
+    the aim with its execution constraint: a private and a shared property, single-valued and
+    as a combination, in tree and flat mode -/
+def perPairPrivateVisCases (tagp : String) : Array Case := Id.run do
+  let mut out : Array Case := #[]
+  let mut k := 0
+  for (cs, ps) in compPropPairs do
+    let other : Part := if cs.name = str "I" then .ann { sym := Sym.A } true (.leaf (str "actor"))
+                        else .ann { sym := Sym.I } true (.leaf (str "acts"))
+    let s1 := Stmt.mk [.ann { sym := cs, sfx := some ['1'] } true (.leaf (str "first value")),
+                       .ann { sym := ps, sfx := some ['1'] } true (.leaf (str "private text")),
+                       .ann { sym := cs, sfx := some ['2'] } true (.leaf (str "second value")),
+                       .ann { sym := ps } true (.leaf (str "shared text")), other]
+    let s2 := Stmt.mk [.ann { sym := cs, sfx := some ['1'] } true (.comb .OR (.leaf (str "value a")) (.leaf (str "value b"))),
+                       .ann { sym := ps, sfx := some ['1'] } true (.comb .AND (.leaf (str "private x")) (.leaf (str "private y"))), other]
+    for v in [0, 1, 2, 3, 10, 17] do
+      out := out.push (visCase s!"{tagp}-pp{k}-a{v}" "per-pair-private" s1 v)
+      out := out.push (visCase s!"{tagp}-pp{k}-b{v}" "per-pair-private" s2 v)
+    k := k + 1
+  pure out
+
 /-- texts that stress the JSON string escaping, one special character class per text -/
 def hostileVisTexts : Array String := #["plain", "", " ", "back\\slash", "C:\\Users\\records", "trailing\\", "say \"hi\"", "tab\there", "line\nbreak",
   "cr\rx", "crlf\r\nx", "bell\x07x", "esc\x1b[0m", "del\x7fx", "sep\u2028x", "ünï çødé 字 😀", "<script>alert(1)</script>", "100% %s %d",
